@@ -29,6 +29,8 @@ def tags(draw, ncells, subdomains=True, boundaries=True, oriented=False, maxname
             spec = dict(pool=draw(st.sampled_from(list(pools))),
                         picks=draw(st.lists(st.integers(0, 10**4), min_size=1, max_size=12)))
             spec['ori'] = draw(st.lists(st.integers(0, 1), min_size=1, max_size=6)) if (oriented and draw(st.booleans())) else None
+            if empty_boundaries and spec['ori'] is not None and draw(st.integers(0, 2)) == 0:
+                spec['twosided'] = True     # interior facets listed from both sides (skin of two adjacent regions in one name)
             if empty_boundaries and draw(st.integers(0, 5)) == 0:
                 spec['picks'] = []          # a named boundary that (currently) matches no facet is still a name
             b[(draw(st.sampled_from(BN)) if names else f'b{k}')] = spec
